@@ -208,6 +208,12 @@ func genC15Case(r *rand.Rand, kind string) c15Case {
 	if wideTransposed {
 		nf = 9 + r.Intn(3)
 	}
+	// appended TYPE sheet: a union whose value is named like an existing top-level type (Reward, the struct type sheet
+	// of the base book), while the existing sheet uses that type as a cross-cell struct
+	unionAppend := kind == "sheets" && !wideTransposed && r.Intn(2) == 0
+	if unionAppend {
+		last = append(last, &snode{kind: "predefStruct", name: g.vname(), sname: ".Reward"})
+	}
 	gs := g.sheet("HeroConf", nf, 2+r.Intn(5), last...)
 	v1 := bookSpec{Name: "Fuzz", Sheets: []sheetSpec{gs.spec}}
 	rows2 := make([][]string, len(gs.spec.Rows))
@@ -277,8 +283,13 @@ func genC15Case(r *rand.Rand, kind string) c15Case {
 			rows[k] = append(rows[k], g.cells(extra, k)...)
 		}
 	case "sheets":
-		gs2 := g.sheet("ZoneConf", 1+r.Intn(3), 1+r.Intn(3))
-		v2.Sheets = append(v2.Sheets, gs2.spec)
+		if unionAppend {
+			v2.Sheets = append(v2.Sheets, sheetSpec{Name: "Bonus", Meta: map[string]string{"Mode": "MODE_UNION_TYPE"},
+				Rows: [][]string{{"Name", "Alias", "Field1", "Field2"}, {"Reward", "BonusReward", "Gold\nint32", "Gem\nint32"}, {"Other", "BonusOther", "Tip\nstring", ""}}})
+		} else {
+			gs2 := g.sheet("ZoneConf", 1+r.Intn(3), 1+r.Intn(3))
+			v2.Sheets = append(v2.Sheets, gs2.spec)
+		}
 	}
 	if wideTransposed {
 		for _, b := range []*bookSpec{&v1, &v2} {
@@ -337,7 +348,8 @@ func runC15(c c15Case, container string) string {
 	write(w2, c.v2)
 	e1, e2 := w1.genProto(ro), w2.genProto(ro)
 	if e1 != nil || e2 != nil {
-		if (e1 != nil) != (e2 != nil) && c.kind == "data" {
+		// data edits: the outcome must be the same; appended columns / sheets: an accepted workbook stays accepted
+		if ((e1 != nil) != (e2 != nil) && c.kind == "data") || (e1 == nil && e2 != nil) {
 			if os.Getenv("VERIF_DEBUG") != "" {
 				println("PARITY e1=", fmt.Sprint(e1), "\ne2=", fmt.Sprint(e2), "\nV1", debugBook(c.v1), "\nV2", debugBook(c.v2))
 			}
